@@ -70,7 +70,8 @@ def kernel_variants(thorough=False):
             args = [a] + ([b] if b else []) + [("gh_read", "w2h" if a[1] != "w2h" else "w1")]
             out.append((f"{a[0][3:]}_{a[1]}" + (f"__{b[0][3:]}_{b[1]}" if b else ""), args))
         return out
-    written = [("gh_inc", "w1"), ("gh_readinc", "w0"), ("gh_inc", "any_space_1"), ("gh_write", "w3"),
+    written = [("gh_inc", "w1"), ("gh_readinc", "w0"), ("gh_inc", "any_space_1"), ("gh_readinc", "any_space_1"),
+               ("gh_write", "w3"),
                ("gh_readwrite", "wtheta"), ("gh_write", "w1"), ("gh_readwrite", "any_discontinuous_space_1"),
                ("gh_inc", "w2")]
     second = [None, ("gh_inc", "w2"), ("gh_write", "w3"), ("gh_readinc", "w1"), ("gh_readwrite", "w3")]
